@@ -22,4 +22,5 @@ pub mod runner3;
 pub mod runner4;
 pub mod runner5;
 pub mod runner6;
+pub mod runner7;
 pub mod unproj;
